@@ -18,7 +18,7 @@ def dist_contents(p, q):
     res = {}
     for l in out.split('\n'):
         parts = l.strip().split('|')
-        if len(parts) == 2 and parts[1]: res[parts[0]] = P.tree_digest(os.path.join(p.dir, parts[1]))
+        if len(parts) == 2 and parts[1] and ' ' not in parts[0]: res[parts[0]] = P.tree_digest(os.path.join(p.dir, parts[1]))
     return res
 
 def clean_build(model, mode='dev'):
